@@ -12,9 +12,9 @@ import (
 // ---------------------------------------------------------------------------------------------
 // C02
 
-// offIn is the offset of s inside buf by pointer difference; -1 for an empty slice (its address
+// c02OffIn is the offset of s inside buf by pointer difference; -1 for an empty slice (its address
 // means nothing), -2 when s does not lie inside buf[:len(buf)].
-func offIn(s, buf []byte) int64 {
+func c02OffIn(s, buf []byte) int64 {
 	if len(s) == 0 {
 		return -1
 	}
@@ -26,19 +26,19 @@ func offIn(s, buf []byte) int64 {
 	return int64(ps - pb)
 }
 
-// rawExtCount is len(h.Extensions), whatever the X flag says.
-func rawExtCount(h *rtp.Header) int {
+// c02RawExtCount is len(h.Extensions), whatever the X flag says.
+func c02RawExtCount(h *rtp.Header) int {
 	ids, _ := rtp.VerifExtensions(h)
 	return len(ids)
 }
 
-// writeLocsGets writes `<list int locs> <list u8 ids> <list obytes gets>` for a decoded header.
-func writeLocsGets(t *Toks, h *rtp.Header, wire []byte) {
+// c02WriteLocsGets writes `<list int locs> <list u8 ids> <list obytes gets>` for a decoded header.
+func c02WriteLocsGets(t *Toks, h *rtp.Header, wire []byte) {
 	if h.Extension {
 		_, pls := rtp.VerifExtensions(h)
 		t.Nat(len(pls))
 		for _, p := range pls {
-			t.I64(offIn(p, wire))
+			t.I64(c02OffIn(p, wire))
 		}
 	} else {
 		t.Nat(0)
@@ -54,9 +54,9 @@ func writeLocsGets(t *Toks, h *rtp.Header, wire []byte) {
 	}
 }
 
-// observeRecv decodes buf with Header.Unmarshal into h and with Packet.Unmarshal into p (each
+// c02ObserveRecv decodes buf with Header.Unmarshal into h and with Packet.Unmarshal into p (each
 // from its own private copy of buf, so offsets are relative to the slice that was passed).
-func observeRecv(t *Toks, h *rtp.Header, p *rtp.Packet, buf []byte, spare bool) {
+func c02ObserveRecv(t *Toks, h *rtp.Header, p *rtp.Packet, buf []byte, spare bool) {
 	// the slice handed to the parser either fills its backing array exactly (reading past the end
 	// panics) or is followed by 64 bytes of 0xEE inside the same array (slicing past the end does
 	// not panic in Go then; the offsets and values observed below show it)
@@ -81,8 +81,8 @@ func observeRecv(t *Toks, h *rtp.Header, p *rtp.Packet, buf []byte, spare bool) 
 	} else if try(func() {
 		var o Toks
 		writeHeaderObs(&o, h)
-		o.Nat(n).Nat(rawExtCount(h))
-		writeLocsGets(&o, h, wire)
+		o.Nat(n).Nat(c02RawExtCount(h))
+		c02WriteLocsGets(&o, h, wire)
 		t.Ok().Tok(o.String())
 	}) {
 		t.Tok("panic-in-accessor")
@@ -95,8 +95,8 @@ func observeRecv(t *Toks, h *rtp.Header, p *rtp.Packet, buf []byte, spare bool) 
 	} else if try(func() {
 		var o Toks
 		writePacketObs(&o, p)
-		o.Nat(rawExtCount(&p.Header)).I64(offIn(p.Payload, wire))
-		writeLocsGets(&o, &p.Header, wire)
+		o.Nat(c02RawExtCount(&p.Header)).I64(c02OffIn(p.Payload, wire))
+		c02WriteLocsGets(&o, &p.Header, wire)
 		t.Ok().Tok(o.String())
 	}) {
 		t.Tok("panic-in-accessor")
@@ -113,14 +113,14 @@ func observeC02(c *Case, buf []byte, prev []byte, hasPrev bool, more ...[]byte) 
 	prevs = append(prevs, more...)
 	c.I.Bytes(buf).BytesList(prevs)
 	spare := c.R.Bool()
-	observeRecv(&c.O, &rtp.Header{}, &rtp.Packet{}, buf, spare)
+	c02ObserveRecv(&c.O, &rtp.Header{}, &rtp.Packet{}, buf, spare)
 	h, p := &rtp.Header{}, &rtp.Packet{}
 	for _, pv := range prevs {
 		pv := pv
 		try(func() { _, _ = h.Unmarshal(cloneBytes(pv)) })
 		try(func() { _ = p.Unmarshal(cloneBytes(pv)) })
 	}
-	observeRecv(&c.O, h, p, buf, spare)
+	c02ObserveRecv(&c.O, h, p, buf, spare)
 	if len(buf) < 12 {
 		c.Trivial()
 	}
